@@ -64,6 +64,8 @@ class Scratch:
         os.makedirs(self.root)
         self.copy_repo()
         shutil.copytree(os.path.join(VERIF, "harness"), self.harness, symlinks=True)
+        shutil.copytree(os.path.join(VERIF, "replay"), os.path.join(self.root, "replay"), symlinks=True)
+        shutil.copy(os.path.join(self.repo, "Cargo.lock"), os.path.join(self.root, "replay", "Cargo.lock"))
         return self
 
     def __exit__(self, *exc):
@@ -185,7 +187,7 @@ def parse_kani(out):
         m = re.search(r"VERIFICATION:- (\w+)", ln)
         if m:
             cur["status"] = m.group(1)
-        if "CBMC failed" in ln or "CBMC timed out" in ln or "Status: ERROR" in ln or "out of memory" in ln.lower():
+        if "CBMC failed" in ln or "CBMC timed out" in ln or "Status: ERROR" in ln or "out of memory" in ln.lower() or "CBMC crashed" in ln:
             cur["raw_status"].append(ln.strip())
         m = re.search(r"Verification Time: ([\d.]+)s", ln)
         if m:
@@ -226,6 +228,10 @@ def kani(scratch, crate, harnesses=None, timeout_s=600, jobs=None, extra=None, c
         if r["status"] is None:
             r["status"] = "ERROR"
             r["raw_status"].append("no verdict (rc=%s)" % rc)
+        # Kani prints VERIFICATION:- FAILED also when CBMC was killed, timed out or ran out of
+        # memory: that is no verdict
+        if r["status"] == "FAILED" and not r["failed_checks"] and r["checks"] == 0:
+            r["status"] = "TIMEOUT" if any("timed out" in x for x in r["raw_status"]) else "ERROR"
     if rc is None:
         for r in recs.values():
             if r["time_s"] is None:
@@ -318,3 +324,140 @@ def write_replay(pid, obj):
     p = os.path.join(EVID, pid + ".replay.json")
     json.dump(obj, open(p, "w"), indent=1)
     return p
+
+
+# ------------------------------------------------------------------------------ overlay
+def _balanced_arg(text, start):
+    """text[start] is just after '(' ; returns the substring up to the matching ')'."""
+    depth, i = 1, start
+    while i < len(text):
+        c = text[i]
+        if c == "(":
+            depth += 1
+        elif c == ")":
+            depth -= 1
+            if depth == 0:
+                return text[start:i], i
+        i += 1
+    raise Inconclusive("unbalanced parentheses while extracting an expression")
+
+
+def _fn_body(src, fn_name):
+    m = re.search(r"fn\s+%s\s*(<[^>]*>)?\s*\(" % re.escape(fn_name), src)
+    if not m:
+        raise Inconclusive("function %s not found in the copied source" % fn_name)
+    i = src.index("{", m.end())
+    depth, j = 1, i + 1
+    while j < len(src) and depth:
+        depth += {"{": 1, "}": -1}.get(src[j], 0)
+        j += 1
+    return src[i + 1:j - 1]
+
+
+def extract_timer_arming(src, fn_name):
+    """From `fn_name` returns (let-statements, argument expression) of the
+    `self.deadlines.insert(request_id, <arg>)` call: the lets are those between the start of the
+    `Vacant` arm and the insert that do not touch `self` or the abort handle."""
+    body = _fn_body(src, fn_name)
+    m = re.search(r"self\s*\.\s*deadlines\s*\.\s*insert\s*\(", body)
+    if not m:
+        raise Inconclusive("%s: no `self.deadlines.insert(` call found" % fn_name)
+    args, _ = _balanced_arg(body, m.end())
+    # split "request_id, <arg>" at the first top-level comma
+    depth = 0
+    for k, c in enumerate(args):
+        depth += {"(": 1, ")": -1, "[": 1, "]": -1, "{": 1, "}": -1}.get(c, 0)
+        if c == "," and depth == 0:
+            arg = args[k + 1:].strip().rstrip(",").strip()
+            break
+    else:
+        raise Inconclusive("%s: insert call without a second argument" % fn_name)
+    arm = body.rfind("Vacant", 0, m.start())
+    pre = body[arm:m.start()] if arm >= 0 else body[:m.start()]
+    pre = pre[pre.index("{") + 1:] if "{" in pre else pre
+    lets = []
+    for stmt in re.findall(r"let\s+[^;]*;", pre, re.S):
+        if "self." in stmt or "AbortHandle" in stmt or "deadline_key" in stmt:
+            continue
+        lets.append(" ".join(stmt.split()))
+    return lets, arg
+
+
+def extract_span_deadline(src, anchor):
+    """The Display expression of the `rpc.deadline = %<expr>` span field nearest to `anchor`
+    (a regex): after it for info_span!, before it for #[tracing::instrument] attributes."""
+    a = re.search(anchor, src)
+    if not a:
+        raise Inconclusive("anchor %r not found" % anchor)
+    pat = r"rpc\.deadline\s*=\s*%"
+    m = re.search(pat, src[a.start():])
+    back = list(re.finditer(pat, src[:a.start()]))
+    if back and (not m or (a.start() - back[-1].end()) < m.start()):
+        start, text = back[-1].end(), src
+    elif m:
+        start, text = a.start() + m.end(), src
+    else:
+        raise Inconclusive("no rpc.deadline span field near %r" % anchor)
+    depth, i = 0, start
+    while i < len(text):
+        c = text[i]
+        if c in "([{":
+            depth += 1
+        elif c in ")]}":
+            if depth == 0:
+                break
+            depth -= 1
+        elif c == "," and depth == 0:
+            break
+        i += 1
+    return " ".join(text[start:i].split())
+
+
+def wheel_max_duration_ms():
+    """Reads NUM_LEVELS / MAX_DURATION from the pinned tokio-util source in the cargo registry."""
+    import glob
+    lock = open(os.path.join(REPO, "Cargo.lock")).read()
+    m = re.search(r'name = "tokio-util"\nversion = "([^"]+)"', lock)
+    ver = m.group(1) if m else "*"
+    for p in glob.glob(os.path.expanduser("~/.cargo/registry/src/*/tokio-util-%s/src/time/wheel/mod.rs" % ver)):
+        s = open(p).read()
+        nl = re.search(r"const NUM_LEVELS: usize = (\d+);", s)
+        md = re.search(r"const MAX_DURATION: u64 = \(1 << \((\d+) \* NUM_LEVELS\)\) - 1;", s)
+        if nl and md:
+            return (1 << (int(md.group(1)) * int(nl.group(1)))) - 1, ver
+    raise Inconclusive("tokio-util wheel constants not found")
+
+
+def inject_overlay(scratch):
+    """Appends the overlay modules to the scratch copy of tarpc (never to /repo)."""
+    tsrc = os.path.join(scratch.repo, "tarpc", "src")
+    cl, ca = extract_timer_arming(open(os.path.join(tsrc, "client", "in_flight_requests.rs")).read(), "insert_request")
+    sl, sa = extract_timer_arming(open(os.path.join(tsrc, "server", "in_flight_requests.rs")).read(), "start_request")
+    cspan = extract_span_deadline(open(os.path.join(tsrc, "client.rs")).read(), r"pub\s+async\s+fn\s+call\b")
+    sspan = extract_span_deadline(open(os.path.join(tsrc, "server.rs")).read(), r"fn\s+start_request\b")
+    wheel, tver = wheel_max_duration_ms()
+    ov = open(os.path.join(VERIF, "overlay", "tarpc_overlay.rs")).read()
+    rep = {"@CLIENT_LETS@": "\n    ".join(cl), "@CLIENT_ARG@": ca, "@SERVER_LETS@": "\n    ".join(sl), "@SERVER_ARG@": sa,
+           "@CLIENT_SPAN_EXPR@": cspan, "@SERVER_SPAN_EXPR@": sspan, "@WHEEL_MAX_DURATION_MS@": str(wheel)}
+    for k, v in rep.items():
+        ov = ov.replace(k, v)
+    open(os.path.join(tsrc, "verif_overlay.rs"), "w").write(ov)
+    shutil.copy(os.path.join(VERIF, "harness", "common", "nd.rs"), os.path.join(tsrc, "verif_nd.rs"))
+    lib = os.path.join(tsrc, "lib.rs")
+    with open(lib, "a") as f:
+        f.write("\n#[cfg(any(kani, verif_replay))]\n#[allow(missing_docs, dead_code, unused_imports, unused_macros)]\n#[path = \"verif_nd.rs\"]\npub mod nd;\n"
+                "#[cfg(any(kani, verif_replay))]\n#[path = \"verif_overlay.rs\"]\nmod verif_overlay;\n")
+    return {"client_lets": cl, "client_arg": ca, "server_lets": sl, "server_arg": sa, "client_span_expr": cspan,
+            "server_span_expr": sspan, "wheel_max_duration_ms": wheel, "tokio_util_version": tver}
+
+
+def replay_test(scratch, test, env_extra, names=None, timeout_s=1200, release=False):
+    """Runs an integration test of /verif/replay (real codecs / real endpoints under tokio) against
+    the scratch copy.  Returns (passed: bool, output tail)."""
+    env = dict(ENV)
+    env.update(env_extra)
+    env["CARGO_TARGET_DIR"] = os.path.join(scratch.target, "replay-native")
+    cmd = ["cargo", "test", "--offline", "--no-fail-fast", "--test", test] + (["--release"] if release else []) + ["--"] + (names or []) + ["--nocapture", "--test-threads", "1"]
+    rc, out, _ = run(cmd, cwd=os.path.join(scratch.root, "replay"), env=env, timeout=timeout_s)
+    keep = [l for l in out.splitlines() if re.search(r"^test |panicked at|MISMATCH|SERVER|CLIENT|DECODE|test result|error(\[|:)", l)]
+    return rc == 0, "\n".join(keep[-25:])
